@@ -44,7 +44,7 @@ static long g_seq;
 static const char *g_out_path;
 static uint64_t g_seed = 1;
 static int g_perturb = 1;
-static int g_watchdog_s = 30;
+static int g_watchdog_s = 90;
 
 static tp_p g_tp; static size_t g_n;      /* current pool, worker count; pvt has index g_n */
 static hmsg_t g_msg[MAXMSG];
@@ -465,14 +465,21 @@ static void do_quiesce(void) {
 #define MAXEVO 32
 typedef struct { tp_udata_t ud; int id; int rfd, wfd; int kind; volatile int count; int beh; int beh_k; } evo_t;
 static evo_t g_evo[MAXEVO];
-enum { EB_NONE = 0, EB_DRAIN = 1, EB_DISABLE = 2, EB_DEL = 3, EB_ENABLE_AGAIN = 4 };
+enum { EB_NONE = 0, EB_DRAIN = 1, EB_DISABLE = 2, EB_DEL = 3, EB_ENABLE_AGAIN = 4, EB_DEL_BOTH = 5 /* delete self and partner beh_k */ };
 static void ev_cb(tp_event_p ev, tp_udata_p ud) {
 	evo_t *o = (evo_t *)ud;
 	tpt_p cur = tpt_get_current();
 	int cnt = ++o->count;
 	LOGEV("\"e\":\"evcb\",\"u\":%d,\"ev\":%u,\"fl\":%u,\"cur\":%ld,\"cnt\":%d", o->id, (unsigned)ev->event, (unsigned)ev->flags, cur ? (long)cur->thread_num : -1L, cnt);
 	if (o->beh == EB_DRAIN) { char b[256]; while (__real_read(o->rfd, b, sizeof(b)) > 0) ; LOGEV("\"e\":\"drained\",\"u\":%d", o->id); }
-	if (o->beh_k > 0 && cnt >= o->beh_k) {
+	if (o->beh == EB_DEL_BOTH) { /* from the owning thread: delete this registration and the partner's */
+		evo_t *pair[2] = { o, &g_evo[o->beh_k] };
+		for (int k = 0; k < 2; k++) {
+			LOGEV("\"e\":\"call.ev\",\"u\":%d,\"op\":1,\"ev\":%u,\"fl\":0,\"ff\":0,\"thr\":%ld", pair[k]->id, (unsigned)ev->event, cur ? (long)cur->thread_num : -1L);
+			int rc = tpt_ev_del_args1(ev->event, &pair[k]->ud);
+			LOGEV("\"e\":\"ret.ev\",\"u\":%d,\"rc\":%d,\"tpd\":0", pair[k]->id, rc);
+		}
+	} else if (o->beh_k > 0 && cnt >= o->beh_k) {
 		if (o->beh == EB_DISABLE) {
 			LOGEV("\"e\":\"call.ev\",\"u\":%d,\"op\":3,\"ev\":%u,\"fl\":0,\"ff\":0,\"thr\":%ld", o->id, (unsigned)ev->event, cur ? (long)cur->thread_num : -1L);
 			int rc = tpt_ev_enable_args1(0, ev->event, ud);
@@ -611,7 +618,11 @@ static void exec_line(const char *actor, char *line) {
 		LOGEV("\"e\":\"ret.destroy\",\"rc\":%d,\"mem\":%d,\"fds\":%d,\"thr\":%d", rc, nm, nfd, nt);
 		if (rc == 0) { g_tp = NULL; g_npipe = 0; }
 	} else if (!strcmp(op, "attach_first")) {
-		LOGEV("\"e\":\"call.attach_first\""); int rc = tp_thread_attach_first(g_tp); vh_tid = -999; LOGEV("\"e\":\"ret.attach_first\",\"rc\":%d", rc);
+		int my_tid = tid_now();
+		LOGEV("\"e\":\"call.attach_first\"");
+		int rc = tp_thread_attach_first(g_tp);
+		vh_tid = my_tid; /* the caller is itself again, whatever the library's TLS says */
+		LOGEV("\"e\":\"ret.attach_first\",\"rc\":%d", rc);
 	} else if (!strcmp(op, "fault")) { /* fault kind k errno */
 		sscanf(args, "%63s %d %d", s1, &a, &b);
 		static char kinds[8][32];
